@@ -3,7 +3,8 @@
 P="$1"; shift
 cd /repo || exit 9
 if ! git diff --quiet; then echo "repo dirty"; exit 9; fi
-git apply "$P" || { echo "patch does not apply"; exit 9; }
+git apply "$P" 2>/dev/null || git apply -3 "$P" || { echo "patch does not apply"; git checkout -- .; exit 9; }
+git reset -q
 cd /verif
 for id in "$@"; do
   ./check "$id" --tier "${TIER:-quick}" > /tmp/mut-$id.log 2>&1; rc=$?
